@@ -429,3 +429,76 @@ Proof.
   - repeat constructor; cbn; lia.
   - vm_compute. auto.
 Qed.
+
+(* ------------------------------------------------------------------ whose data size?
+   [trr_step_g dg] = the loop with its two data-size guards using [dg lay idx d].  With the
+   size announced by the frame's own header ([own_size]) it IS the loop as it is, so every
+   theorem about [trr_sched true] is a theorem about per-frame data sizes; no hypothesis says
+   that two frames have the same size ([lay_ok] fixes the header size only). *)
+Lemma trr_observe_g_own head lay st size :
+  trr_observe_g own_size head lay st size = trr_observe head lay st size.
+Proof.
+  unfold trr_observe_g, trr_observe, own_size.
+  destruct (t_bad st); [reflexivity|].
+  destruct (t_pend st) as [[idx d]|]; [|reflexivity].
+  destruct (size >=? t_br st + d) eqn:E; [|reflexivity].
+  assert (L : (t_br st + d <=? size) = true) by (apply Z.leb_le; apply Z.geb_le in E; lia).
+  rewrite L. reflexivity.
+Qed.
+
+Lemma trr_step_g_own head lay m size ended :
+  trr_step_g own_size head lay m size ended = trr_step true head lay m size ended.
+Proof.
+  unfold trr_step_g, trr_step. destruct (m_pc m); try reflexivity.
+  rewrite trr_observe_g_own. reflexivity.
+Qed.
+
+Lemma trr_drive_g_own head lay obs : forall m,
+  trr_drive_g own_size head lay m obs = trr_drive true head lay m obs.
+Proof.
+  induction obs as [|[s e] r IH]; intros m; [reflexivity|].
+  cbn [trr_drive_g trr_drive]. rewrite trr_step_g_own.
+  destruct (trr_step true head lay m s e) as [m1 ev1]. rewrite IH. reflexivity.
+Qed.
+
+Theorem trr_sched_g_own head lay sizes fin :
+  trr_sched_g own_size head lay sizes fin = trr_sched true head lay sizes fin.
+Proof. unfold trr_sched_g, trr_sched. apply trr_drive_g_own. Qed.
+
+(* The data size computed once ("while data_size == 0") and used for the guards of all later
+   frames is refuted on files whose frames differ in size.
+   (a) small frame first (positions only, then positions + velocities): the stale, smaller
+   size lets get_data run on a frame that is only partly on disk - the reader goes wrong
+   (raises / returns garbage) on a PARTIAL frame, where the loop as it is waits and hands out
+   both frames; *)
+Theorem trr_cached_size_torn_refuted :
+  exists lay sizes, lay_ok trr_header_bytes_single lay /\
+    Forall (fun s => s <= layout_size lay) sizes /\
+    t_bad (m_st (fst (trr_sched_g cached_size trr_head_size lay sizes (layout_size lay)))) = true /\
+    yields (snd (trr_sched_g cached_size trr_head_size lay sizes (layout_size lay))) = [0%nat] /\
+    In (TGarbage 1168) (snd (trr_sched_g cached_size trr_head_size lay sizes (layout_size lay))) /\
+    t_bad (m_st (fst (trr_sched true trr_head_size lay sizes (layout_size lay)))) = false /\
+    yields (snd (trr_sched true trr_head_size lay sizes (layout_size lay))) = [0%nat; 1%nat].
+Proof.
+  exists [(84, 1000); (84, 2000)], [0; 1084; 1084; 1084; 2500; 2500]. split; [|split].
+  - repeat constructor; cbn; lia.
+  - repeat constructor; cbn; lia.
+  - vm_compute. intuition.
+Qed.
+
+(* (b) large frame first (forces with frame 0 only): the stale, larger size makes the loop wait
+   for bytes that are never written; when GROMACS ends it takes the "this frame will never be
+   completed" exit, and the last frame - completely on disk, no cut at all - is never handed out *)
+Theorem trr_cached_size_lost_refuted :
+  exists lay sizes, lay_ok trr_header_bytes_single lay /\
+    Forall (fun s => s <= layout_size lay) sizes /\
+    m_pc (fst (trr_sched_g cached_size trr_head_size lay sizes (layout_size lay))) = PcDone /\
+    t_bad (m_st (fst (trr_sched_g cached_size trr_head_size lay sizes (layout_size lay)))) = false /\
+    yields (snd (trr_sched_g cached_size trr_head_size lay sizes (layout_size lay))) = [0%nat] /\
+    yields (snd (trr_sched true trr_head_size lay sizes (layout_size lay))) = [0%nat; 1%nat].
+Proof.
+  exists [(84, 2000); (84, 1000)], [3168; 3168; 3168; 3168; 3168; 3168; 3168]. split; [|split].
+  - repeat constructor; cbn; lia.
+  - repeat constructor; cbn; lia.
+  - vm_compute. intuition.
+Qed.
